@@ -458,7 +458,22 @@ func Defer[T any](factory func() Observable[T]) Observable[T] {
 func Future[T any](factory func() (T, error)) Observable[T] {
 	return NewUnsafeObservableWithContext(func(ctx context.Context, destination Observer[T]) Teardown {
 		go recoverUnhandledError(func() {
-			v, err := factory()
+			var (
+				v   T
+				err error
+			)
+
+			// a panic of the factory is an error of the stream, like a panic of a subscribe function
+			lo.TryCatchWithErrorValue(
+				func() error {
+					v, err = factory()
+					return nil
+				},
+				func(e any) {
+					err = newObservableError(recoverValueToError(e))
+				},
+			)
+
 			if err != nil {
 				destination.ErrorWithContext(ctx, err)
 				return
